@@ -8,7 +8,8 @@
 // oracles: linearizability (C03/C04/C05), deadlock (C06), lock state at rest
 // (C09), lock coupling (C10), shape at quiescence (C08), and - when enabled by
 // -writeframe or a case's `opt writeframe` line - the write frame of every
-// scheduler step (C07). With -stepsnap or `opt stepsnap` the canonical rendering
+// scheduler step (C07), and with `opt readframe` the read-frame probe (C07, see rfState).
+// With -stepsnap or `opt stepsnap` the canonical rendering
 // of the whole structure (the one of the `final` line) is also printed as an
 // `s <tree>` line right before every `d` line: the structure in which that
 // scheduling decision is taken, which the model must reproduce step by step.
@@ -50,6 +51,39 @@ type caseSpec struct {
 	writeframe  bool // C07: diff the structure around every scheduler step
 	yieldUnlock bool // Unlock is a scheduling point too
 	stepsnap    bool // print the structure (`s <tree>`) before every scheduling decision
+	readframe   bool // C07: scramble, for the duration of each step, the nodes the stepping task does not hold
+	// scheduling policy of a `strategy lead` run (nil: uniform random with stickiness)
+	pol *policy
+}
+
+// policy is the scheduling policy of one run of
+//
+//	strategy lead <tid> <nops> <modes> <seed> <n> [pace <t>:<base>:<stride>,...]
+//
+// Task leadTid (a cursor) runs alone (whenever it is enabled) until it has started leadOps
+// client operations. From then on the other tasks (writers) are PACED: task t may begin its
+// i-th operation (i = 0, 1, ..) only once the lead task has started base + i*stride operations
+// - the generator knows which leaf the cursor is about to enter after that many operations
+// and aims the writer's i-th operation at that leaf. Among the tasks that may run, the mode
+// decides (run r of the n runs uses the r-th mode, cyclically):
+//
+//	queue   writers first, but first come, first served on the mutex the lead task wants: a
+//	        writer that asks for the leaf the cursor is about to enter gets it after the
+//	        cursor, stays queued on it for the cursor's whole stay and gets in the moment
+//	        the cursor lets go of it
+//	ahead   writers first: the writer changes the leaf right before the cursor enters it (or
+//	        the cursor has to wait for the writer)
+//	behind  as queue, one operation later: the writer heads for the leaf when the cursor is
+//	        about to leave it
+//	rand    the uniform random choice with stickiness of `strategy random` (paced)
+//	cursor  the lead task with probability 3/4 whenever it is enabled (writers not paced)
+//
+// In the writers-first modes the lead task still runs with probability 1/16 when a writer
+// could, so that the runs of one mode differ.
+type policy struct {
+	leadTid, leadOps int
+	mode             string
+	pace             map[int][2]int // task -> (base, stride)
 }
 
 var out *bufio.Writer
@@ -167,6 +201,7 @@ func runCase(cs *caseSpec, rng *rand.Rand, replay []int, record bool) (sched []i
 		c.Close()
 	}
 	recs := make([][]*opRec, len(cs.threads))
+	started := make([]int, len(cs.threads)) // client operations started, per task
 	var s *vsync.Sched
 	var fns []func()
 	cursors := make([]adapter.Cursor, len(cs.threads))
@@ -179,6 +214,7 @@ func runCase(cs *caseSpec, rng *rand.Rand, replay []int, record bool) (sched []i
 			for oi, op := range prog {
 				r := &opRec{op: op, ret: -1}
 				recs[ti][oi] = r
+				started[ti]++
 				r.inv = len(s.Log)
 				switch op.kind {
 				case "ins", "upd", "get", "ns":
@@ -268,8 +304,26 @@ func runCase(cs *caseSpec, rng *rand.Rand, replay []int, record bool) (sched []i
 	if cs.writeframe {
 		wf = &wfState{tr: tr, rootMutex: findRootMutex(tr), everNode: map[*vsync.Mutex]bool{}}
 	}
+	// C07 read-frame probe (`opt readframe`): see rfState
+	var rf *rfState
+	if cs.readframe {
+		rf = &rfState{tr: tr}
+	}
+	type request struct {
+		m     *vsync.Mutex
+		acqs  int
+		since int
+	}
+	reqs := map[int]request{}               // `strategy lead`: the pending lock request of each task
+	acqCount := make([]int, len(cs.threads)) // acquisitions per task
 	s.Choose = func(st int, enabled []int) int {
 		enabledSets = append(enabledSets, append([]int(nil), enabled...))
+		if rf != nil {
+			// the step is over: put the scrambled fields back before anything looks at the tree
+			if msg := rf.restore(); msg != "" {
+				oracles = append(oracles, oracleMsg{"writeframe", msg})
+			}
+		}
 		var snapNow *gobptree.VerifNode
 		if wf != nil {
 			snapNow = tr.Snapshot()
@@ -316,15 +370,105 @@ func runCase(cs *caseSpec, rng *rand.Rand, replay []int, record bool) (sched []i
 		if step < len(replay) {
 			pick = replay[step]
 		} else if rng != nil {
-			// bias: keep running the same task with probability 1/2 when it is enabled
-			pick = enabled[rng.Intn(len(enabled))]
-			if len(sched) > 0 && rng.Intn(100) < 35 {
-				last := sched[len(sched)-1]
-				for _, e := range enabled {
-					if e == last {
-						pick = last
+			randomPick := func() int {
+				// bias: keep running the same task with probability 1/2 when it is enabled
+				p := enabled[rng.Intn(len(enabled))]
+				if len(sched) > 0 && rng.Intn(100) < 35 {
+					last := sched[len(sched)-1]
+					for _, e := range enabled {
+						if e == last {
+							p = last
+						}
 					}
 				}
+				return p
+			}
+			if pol := cs.pol; pol != nil && pol.leadTid < len(started) {
+				wantOf := map[int]*vsync.Mutex{}
+				{
+					tids, wants := s.Waiting()
+					for i, t := range tids {
+						wantOf[t] = wants[i]
+						// a request is identified by the mutex and the number of acquisitions
+						// the task had made when it asked; its age is the step it was first seen
+						if rq := reqs[t]; rq.m != wants[i] || rq.acqs != acqCount[t] {
+							reqs[t] = request{wants[i], acqCount[t], step}
+						}
+					}
+				}
+				shift := 0
+				if pol.mode == "behind" {
+					shift = 1
+				}
+				// may task t run? (a paced task at the start of an operation - parked in the
+				// operation's first Lock(), holding nothing - waits for the lead task's progress)
+				eligible := func(t int) bool {
+					pc, paced := pol.pace[t]
+					if !paced || pol.mode == "cursor" || started[t] == 0 || len(s.HeldBy(t)) > 0 || wantOf[t] == nil {
+						return true
+					}
+					return started[pol.leadTid] >= pc[0]+(started[t]-1+shift)*pc[1]
+				}
+				leadEnabled := false
+				var others []int
+				for _, e := range enabled {
+					if e == pol.leadTid {
+						leadEnabled = true
+					} else if eligible(e) {
+						others = append(others, e)
+					}
+				}
+				switch {
+				case leadEnabled && started[pol.leadTid] < pol.leadOps:
+					pick = pol.leadTid
+				case pol.mode == "queue" || pol.mode == "behind" || pol.mode == "ahead" || pol.mode == "prio":
+					if leadEnabled && pol.mode != "ahead" && pol.mode != "prio" && wantOf[pol.leadTid] != nil {
+						// first come, first served on the mutex the lead task wants: a writer
+						// that asked for it later than the lead task waits
+						var rest []int
+						for _, o := range others {
+							if wantOf[o] != wantOf[pol.leadTid] || reqs[o].since < reqs[pol.leadTid].since {
+								rest = append(rest, o)
+							}
+						}
+						others = rest
+					}
+					if len(others) > 0 && (!leadEnabled || rng.Intn(16) != 0) {
+						pick = others[rng.Intn(len(others))]
+					} else if leadEnabled {
+						pick = pol.leadTid
+					} else {
+						pick = enabled[rng.Intn(len(enabled))]
+					}
+				case pol.mode == "cursor":
+					if leadEnabled && (len(others) == 0 || rng.Intn(4) != 0) {
+						pick = pol.leadTid
+					} else if len(others) > 0 {
+						pick = others[rng.Intn(len(others))]
+					} else {
+						pick = enabled[rng.Intn(len(enabled))]
+					}
+				default:
+					// rand: among the lead task and the tasks that may run
+					pool := append([]int(nil), others...)
+					if leadEnabled {
+						pool = append(pool, pol.leadTid)
+					}
+					if len(pool) == 0 {
+						pool = enabled
+					}
+					pick = pool[rng.Intn(len(pool))]
+					if len(sched) > 0 && rng.Intn(100) < 35 {
+						last := sched[len(sched)-1]
+						for _, e := range pool {
+							if e == last {
+								pick = last
+							}
+						}
+					}
+				}
+			} else {
+				pick = randomPick()
 			}
 		} else {
 			pick = enabled[0]
@@ -338,11 +482,32 @@ func runCase(cs *caseSpec, rng *rand.Rand, replay []int, record bool) (sched []i
 			}
 			wf.beginStep(snapNow, pick, step-1, what, s.HeldBy(pick))
 		}
+		if rf != nil {
+			if snapNow == nil {
+				snapNow = tr.Snapshot()
+			}
+			var want *vsync.Mutex
+			tids, wants := s.Waiting()
+			for i, t := range tids {
+				if t == pick {
+					want = wants[i]
+				}
+			}
+			what := ""
+			if r := curOpOf(recs, pick); r != nil {
+				what = r.op.text
+			}
+			rf.beginStep(snapNow, pick, step-1, what, s.HeldBy(pick), want)
+		}
 		return pick
+	}
+	if rf != nil {
+		s.OnRelease = func(tid int, m *vsync.Mutex) { rf.released(tid, m) }
 	}
 	// C10 oracle: lock coupling of point operations and NewScanner
 	curOp := func(tid int) *opRec { return curOpOf(recs, tid) }
 	s.OnAcquire = func(tid int, m *vsync.Mutex, heldBefore []*vsync.Mutex) {
+		acqCount[tid]++
 		if wf != nil {
 			wf.acquired(tid, m)
 		}
@@ -375,6 +540,11 @@ func runCase(cs *caseSpec, rng *rand.Rand, replay []int, record bool) (sched []i
 		}
 	}
 	s.Run()
+	if rf != nil {
+		if msg := rf.restore(); msg != "" {
+			oracles = append(oracles, oracleMsg{"writeframe", msg})
+		}
+	}
 	if wf != nil {
 		// the last step (and the step that ended in a deadlock, panic or abort)
 		if msg := wf.endStep(tr.Snapshot()); msg != "" {
@@ -412,6 +582,9 @@ func runCase(cs *caseSpec, rng *rand.Rand, replay []int, record bool) (sched []i
 	lines = append(lines, fmt.Sprintf("# lockorder states %d", rankStates))
 	if wf != nil {
 		lines = append(lines, fmt.Sprintf("# writeframe steps %d nodes %d changed %d yieldunlock %v rootmutex %v", wf.steps, wf.nodes, wf.changed, cs.yieldUnlock, wf.rootMutex != nil))
+	}
+	if rf != nil {
+		lines = append(lines, fmt.Sprintf("# readframe steps %d scrambled %d onrelease %d", rf.steps, rf.nscrambled, rf.nreleased))
 	}
 	if s.Deadlock != "" {
 		lines = append(lines, "deadlock")
@@ -617,6 +790,180 @@ func runCase(cs *caseSpec, rng *rand.Rand, replay []int, record bool) (sched []i
 		oracles = append(oracles, oracleMsg{"linearizability", msg})
 	} else if msg == "budget" {
 		lines = append(lines, "# linearizability search budget exhausted (inconclusive)")
+		// histories beyond the exhaustive search (more than 62 operations: long cursor
+		// sessions, hops over wide leaves): the interval oracle, a sound necessary condition
+		n, msgs := intervalCheck(ops, init, less)
+		lines = append(lines, fmt.Sprintf("# interval oracle ops %d", n))
+		for _, m := range msgs {
+			oracles = append(oracles, oracleMsg{"linearizability", "interval oracle: " + m})
+		}
+	}
+	return
+}
+
+// intervalCheck is the linearizability oracle for histories too long for the exhaustive
+// search of package lin. It decides, from the invocation/response positions alone, whether a
+// key is stored at EVERY instant of a window of the log, or at NO instant of it, under every
+// linearization, and reports an observation that contradicts such a fact:
+//
+//   - a Search (or a cursor's Pair) that misses a key stored throughout its window, or finds
+//     a key stored at no instant of it;
+//   - a cursor step that exposes a key not greater than the key exposed before (not at or
+//     after the start key, for the first step), exposes a key stored at no instant of its
+//     window, or passes over a key stored throughout its window (ends the scan before it).
+//
+// A key is stored throughout [a,b] if it is in the initial contents or an Insert/Update of it
+// returned before a, and every Delete of it invoked before b returned before an Insert/Update
+// of it was invoked that itself returned before a. Symmetrically for "stored at no instant".
+// Every report is a genuine violation (the conditions are necessary for linearizability); a
+// silent oracle proves nothing, which is why the exhaustive search is used wherever it fits.
+func intervalCheck(ops []lin.Op, init map[string]string, less func(a, b string) bool) (checked int, msgs []string) {
+	type keyWrites struct {
+		est, rem []lin.Op
+		inInit   bool
+	}
+	w := map[string]*keyWrites{}
+	get := func(k string) *keyWrites {
+		kw := w[k]
+		if kw == nil {
+			kw = &keyWrites{}
+			w[k] = kw
+		}
+		return kw
+	}
+	for k := range init {
+		get(k).inInit = true
+	}
+	for _, o := range ops {
+		switch o.Kind {
+		case "ins", "upd":
+			kw := get(o.Key)
+			kw.est = append(kw.est, o)
+		case "del":
+			kw := get(o.Key)
+			kw.rem = append(kw.rem, o)
+		}
+	}
+	present := func(k string, a, b int) bool {
+		kw := w[k]
+		if kw == nil {
+			return false
+		}
+		ok := kw.inInit
+		for _, e := range kw.est {
+			if e.Ret >= 0 && e.Ret < a {
+				ok = true
+			}
+		}
+		if !ok {
+			return false
+		}
+		for _, d := range kw.rem {
+			if d.Inv > b {
+				continue
+			}
+			if d.Ret < 0 {
+				return false
+			}
+			over := false
+			for _, e := range kw.est {
+				if e.Inv > d.Ret && e.Ret >= 0 && e.Ret < a {
+					over = true
+				}
+			}
+			if !over {
+				return false
+			}
+		}
+		return true
+	}
+	absent := func(k string, a, b int) bool {
+		kw := w[k]
+		if kw == nil {
+			return true
+		}
+		if kw.inInit {
+			over := false
+			for _, d := range kw.rem {
+				if d.Ret >= 0 && d.Ret < a {
+					over = true
+				}
+			}
+			if !over {
+				return false
+			}
+		}
+		for _, e := range kw.est {
+			if e.Inv > b {
+				continue
+			}
+			if e.Ret < 0 {
+				return false
+			}
+			over := false
+			for _, d := range kw.rem {
+				if d.Inv > e.Ret && d.Ret >= 0 && d.Ret < a {
+					over = true
+				}
+			}
+			if !over {
+				return false
+			}
+		}
+		return true
+	}
+	// keys that are ever stored, ascending
+	var cand []string
+	for k, kw := range w {
+		if kw.inInit || len(kw.est) > 0 {
+			cand = append(cand, k)
+		}
+	}
+	sort.Slice(cand, func(i, j int) bool { return less(cand[i], cand[j]) })
+	report := func(o lin.Op, what string) {
+		if len(msgs) < 3 {
+			msgs = append(msgs, fmt.Sprintf("[t%d#%d %s inv@%d ret@%d] %s", o.Tid, o.Idx, o.Text, o.Inv, o.Ret, what))
+		}
+	}
+	for _, o := range ops {
+		if o.Ret < 0 {
+			continue
+		}
+		switch o.Kind {
+		case "get":
+			checked++
+			if o.Val == "absent" && present(o.Key, o.Inv, o.Ret) {
+				report(o, "key "+o.Key+" reported absent, but it is stored during the whole operation")
+			}
+			if o.Val != "absent" && absent(o.Key, o.Inv, o.Ret) {
+				report(o, "key "+o.Key+" reported present, but it is stored at no instant of the operation")
+			}
+		case "succ":
+			checked++
+			if o.Res != "" {
+				if o.Strict && !less(o.Key, o.Res) {
+					report(o, "cursor exposes key "+o.Res+" after key "+o.Key+": keys must strictly increase")
+				}
+				if !o.Strict && less(o.Res, o.Key) {
+					report(o, "cursor exposes key "+o.Res+" below its start key "+o.Key)
+				}
+				if absent(o.Res, o.Inv, o.Ret) {
+					report(o, "cursor exposes key "+o.Res+", which is stored at no instant of the step")
+				}
+			}
+			i := sort.Search(len(cand), func(i int) bool {
+				if o.Strict {
+					return less(o.Key, cand[i])
+				}
+				return !less(cand[i], o.Key)
+			})
+			for ; i < len(cand) && (o.Res == "" || less(cand[i], o.Res)); i++ {
+				if present(cand[i], o.Inv, o.Ret) {
+					report(o, "cursor passes over key "+cand[i]+", which is stored during the whole step")
+					break
+				}
+			}
+		}
 	}
 	return
 }
@@ -746,6 +1093,10 @@ func main() {
 					cs.writeframe = false
 				case "noyieldunlock":
 					cs.yieldUnlock = false
+				case "readframe":
+					cs.readframe = true
+				case "noreadframe":
+					cs.readframe = false
 				case "stepsnap":
 					cs.stepsnap = true
 				case "nostepsnap":
@@ -792,6 +1143,45 @@ func runStrategy(cs *caseSpec, dfsMax int) {
 		for i := 0; i < n; i++ {
 			rng := rand.New(rand.NewSource(seed + int64(i)*7919))
 			sched, lines, oracles, _ := runCase(cs, rng, nil, true)
+			if cs.readframe {
+				if d := rfCompare(cs, sched, lines, oracles); d != "" {
+					oracles = append(oracles, oracleMsg{"readframe", d})
+				}
+			}
+			emitRun(cs, sched, lines, oracles)
+		}
+	case "lead":
+		// strategy lead <tid> <nops> <mode,mode,..> <seed> <n> [pace <t>:<base>:<stride>,..]
+		tid, _ := strconv.Atoi(cs.strategy[1])
+		nops, _ := strconv.Atoi(cs.strategy[2])
+		modes := strings.Split(cs.strategy[3], ",")
+		seed, _ := strconv.ParseInt(cs.strategy[4], 10, 64)
+		n := 1
+		if len(cs.strategy) > 5 {
+			n, _ = strconv.Atoi(cs.strategy[5])
+		}
+		pace := map[int][2]int{}
+		if len(cs.strategy) > 7 && cs.strategy[6] == "pace" {
+			for _, part := range strings.Split(cs.strategy[7], ",") {
+				f := strings.Split(part, ":")
+				if len(f) == 3 {
+					t, _ := strconv.Atoi(f[0])
+					b, _ := strconv.Atoi(f[1])
+					st, _ := strconv.Atoi(f[2])
+					pace[t] = [2]int{b, st}
+				}
+			}
+		}
+		for i := 0; i < n; i++ {
+			rng := rand.New(rand.NewSource(seed + int64(i)*7919))
+			run := *cs
+			run.pol = &policy{leadTid: tid, leadOps: nops, mode: modes[i%len(modes)], pace: pace}
+			sched, lines, oracles, _ := runCase(&run, rng, nil, true)
+			if cs.readframe {
+				if d := rfCompare(cs, sched, lines, oracles); d != "" {
+					oracles = append(oracles, oracleMsg{"readframe", d})
+				}
+			}
 			emitRun(cs, sched, lines, oracles)
 		}
 	case "replay":
@@ -801,6 +1191,11 @@ func runStrategy(cs *caseSpec, dfsMax int) {
 			rp = append(rp, n)
 		}
 		sched, lines, oracles, _ := runCase(cs, nil, rp, true)
+		if cs.readframe {
+			if d := rfCompare(cs, sched, lines, oracles); d != "" {
+				oracles = append(oracles, oracleMsg{"readframe", d})
+			}
+		}
 		emitRun(cs, sched, lines, oracles)
 	case "dfs":
 		// stateless exploration of every schedule by re-execution
@@ -816,6 +1211,14 @@ func runStrategy(cs *caseSpec, dfsMax int) {
 		for {
 			sched, lines, oracles, en := runCase(&explore, nil, prefix, true)
 			runs++
+			if cs.readframe && len(oracles) > 0 {
+				// the exploration runs with the read-frame probe; a run the oracles object to
+				// is made again without it (a run they accept agrees with its plain twin on
+				// everything the oracles look at)
+				if d := rfCompare(cs, sched, lines, oracles); d != "" {
+					oracles = append(oracles, oracleMsg{"readframe", d})
+				}
+			}
 			if len(oracles) > 0 {
 				bad++
 			}
@@ -829,6 +1232,11 @@ func runStrategy(cs *caseSpec, dfsMax int) {
 			if emitAll || newKind || runs == 1 {
 				if cs.stepsnap {
 					s2, l2, o2, _ := runCase(cs, nil, sched, true)
+					for _, o := range oracles {
+						if o.kind == "readframe" {
+							o2 = append(o2, o)
+						}
+					}
 					emitRun(cs, s2, l2, o2)
 				} else {
 					emitRun(cs, sched, lines, oracles)
@@ -1094,4 +1502,225 @@ func (w *wfState) endStep(now *gobptree.VerifNode) string {
 	w.reported = true // one report per run
 	sort.Strings(msgs)
 	return strings.Join(msgs, " || ")
+}
+
+// ---------------------------------------------------------------------------
+// C07 read-frame probe
+
+// rfState carries the read-frame probe (`opt readframe`) across the scheduling decisions of
+// one run. The dual of the write frame: the step of task g that runs between two scheduling
+// decisions reads own fields (keys, values) only of nodes whose mutex g holds. The probe
+// makes a read outside that frame observable: when g is picked, the keys of every node of
+// the tree whose mutex g neither holds nor is about to acquire are put in reverse order and
+// its values replaced by sentinels, and the same is done to a node the moment g releases its
+// mutex; everything is put back when the step ends (before the next decision, before any
+// snapshot). Lengths, child and next pointers stay as they are. Code that reads a node's keys
+// and values only under the node's mutex cannot tell the difference, so a run with the probe
+// and the run under the same schedule without it must agree line by line; runStrategy makes
+// that comparison and reports a difference as oracle `readframe`. A scrambled field that
+// was written during the step (a write outside the write frame) is reported as `writeframe`.
+type rfState struct {
+	tr         adapter.Tree
+	tid, step  int
+	what       string
+	byMutex    map[*vsync.Mutex]*gobptree.VerifNode // nodes of the tree when the step began
+	saved      []rfSaved
+	done       map[interface{}]bool
+	steps      int
+	nscrambled int
+	nreleased  int
+	reported   bool
+}
+
+type rfSaved struct {
+	node           *gobptree.VerifNode
+	keys, keysOrig reflect.Value // the slice (same backing array) and a copy of its contents
+	keysScr        reflect.Value // the scrambled contents
+	vals           []interface{}
+	valsOrig       []interface{}
+}
+
+func rfIndex(n *gobptree.VerifNode, acc map[*vsync.Mutex]*gobptree.VerifNode) {
+	if n == nil || n.Truncated {
+		return
+	}
+	if _, seen := acc[n.Mutex]; seen {
+		return
+	}
+	acc[n.Mutex] = n
+	for _, c := range n.Children {
+		rfIndex(c, acc)
+	}
+}
+
+func (r *rfState) beginStep(snap *gobptree.VerifNode, tid, step int, what string, held []*vsync.Mutex, want *vsync.Mutex) {
+	r.tid, r.step, r.what = tid, step, what
+	r.steps++
+	r.byMutex = map[*vsync.Mutex]*gobptree.VerifNode{}
+	r.done = map[interface{}]bool{}
+	rfIndex(snap, r.byMutex)
+	frame := map[*vsync.Mutex]bool{}
+	for _, h := range held {
+		frame[h] = true
+	}
+	if want != nil {
+		frame[want] = true
+	}
+	for m, n := range r.byMutex {
+		if !frame[m] {
+			r.scramble(n)
+		}
+	}
+}
+
+// released: task tid has just released m; the node m guards leaves its read frame.
+func (r *rfState) released(tid int, m *vsync.Mutex) {
+	if r.byMutex == nil || tid != r.tid {
+		return
+	}
+	if n := r.byMutex[m]; n != nil && !r.done[n.Self] {
+		r.nreleased++
+		r.scramble(n)
+	}
+}
+
+// rfSentinel is the value slot i of a scrambled node holds (an int64, so that it travels
+// through the harness like any stored value if it is read after all)
+func rfSentinel(i int) int64 { return -7777000000 - int64(i) }
+
+func (r *rfState) scramble(n *gobptree.VerifNode) {
+	if r.done[n.Self] {
+		return
+	}
+	r.done[n.Self] = true
+	defer func() { recover() }() // a node type without the expected fields is left alone
+	rv := reflect.ValueOf(n.Self)
+	if rv.Kind() != reflect.Ptr || rv.IsNil() {
+		return
+	}
+	st := rv.Elem()
+	sv := rfSaved{node: n}
+	if f := st.FieldByName("runts"); f.IsValid() && f.Kind() == reflect.Slice && f.Len() >= 2 {
+		sl := reflect.NewAt(f.Type(), unsafe.Pointer(f.UnsafeAddr())).Elem()
+		k := sl.Len()
+		sv.keys = sl.Slice(0, k)
+		sv.keysOrig = reflect.MakeSlice(f.Type(), k, k)
+		reflect.Copy(sv.keysOrig, sv.keys)
+		for i := 0; i < k; i++ {
+			sv.keys.Index(i).Set(sv.keysOrig.Index(k - 1 - i))
+		}
+		sv.keysScr = reflect.MakeSlice(f.Type(), k, k)
+		reflect.Copy(sv.keysScr, sv.keys)
+	}
+	if f := st.FieldByName("values"); f.IsValid() && f.Kind() == reflect.Slice && f.Len() >= 1 && f.Type() == reflect.TypeOf([]interface{}(nil)) {
+		vs := *(*[]interface{})(unsafe.Pointer(f.UnsafeAddr()))
+		sv.vals = vs[:len(vs):len(vs)]
+		sv.valsOrig = append([]interface{}(nil), vs...)
+		for i := range sv.vals {
+			sv.vals[i] = rfSentinel(i)
+		}
+	}
+	if sv.keys.IsValid() || sv.vals != nil {
+		r.nscrambled++
+		r.saved = append(r.saved, sv)
+	}
+}
+
+// restore puts every scrambled field back and returns a description of the first scrambled
+// field that was written in the meantime ("" if none).
+func (r *rfState) restore() string {
+	msg := ""
+	for i := len(r.saved) - 1; i >= 0; i-- {
+		sv := r.saved[i]
+		written := ""
+		if sv.keys.IsValid() {
+			for j := 0; j < sv.keys.Len(); j++ {
+				if !reflect.DeepEqual(sv.keys.Index(j).Interface(), sv.keysScr.Index(j).Interface()) {
+					written = "runts"
+					break
+				}
+			}
+			if written == "" {
+				reflect.Copy(sv.keys, sv.keysOrig)
+			}
+		}
+		if sv.vals != nil {
+			wv := false
+			for j := range sv.vals {
+				if s, ok := sv.vals[j].(int64); !ok || s != rfSentinel(j) {
+					wv = true
+					break
+				}
+			}
+			if wv {
+				written = "values"
+			} else {
+				copy(sv.vals, sv.valsOrig)
+			}
+		}
+		if written != "" && msg == "" && !r.reported {
+			kind := "leaf"
+			if sv.node.Internal {
+				kind = "internal node"
+			}
+			msg = fmt.Sprintf("%s of a pre-existing %s written by task %d (%s) in step %d without holding its mutex (found by the read-frame probe: the field was scrambled for the step and holds something else now)", written, kind, r.tid, r.what, r.step)
+			r.reported = true
+		}
+	}
+	r.saved = nil
+	r.byMutex = nil
+	return msg
+}
+
+// rfCompare runs the case again under the schedule of a run made with the read-frame probe,
+// this time without the probe, and returns a description of the first difference ("" if the
+// two runs agree on every line of the canonical log and on the oracles' verdicts).
+func rfCompare(cs *caseSpec, sched []int, lines []string, oracles []oracleMsg) string {
+	plain := *cs
+	plain.readframe = false
+	plain.stepsnap = false
+	plain.pol = nil
+	_, l2, o2, _ := runCase(&plain, nil, sched, true)
+	strip := func(ls []string) []string {
+		var out []string
+		for _, l := range ls {
+			if !strings.HasPrefix(l, "#") && !strings.HasPrefix(l, "s ") {
+				out = append(out, l)
+			}
+		}
+		return out
+	}
+	a, b := strip(lines), strip(l2)
+	trunc := func(s string) string {
+		if len(s) > 160 {
+			return s[:160] + "..."
+		}
+		return s
+	}
+	for i := 0; i < len(a) || i < len(b); i++ {
+		la, lb := "<end of log>", "<end of log>"
+		if i < len(a) {
+			la = a[i]
+		}
+		if i < len(b) {
+			lb = b[i]
+		}
+		if la != lb {
+			return fmt.Sprintf("with the keys and values of the nodes a task does not hold scrambled for the duration of each of its steps, line %d of the event log reads `%s`; under the same schedule without the probe it reads `%s`: the task read a node outside its critical section", i, trunc(la), trunc(lb))
+		}
+	}
+	kinds := func(os []oracleMsg) string {
+		var ks []string
+		for _, o := range os {
+			if o.kind != "readframe" {
+				ks = append(ks, o.kind)
+			}
+		}
+		sort.Strings(ks)
+		return strings.Join(ks, ",")
+	}
+	if ka, kb := kinds(oracles), kinds(o2); ka != kb {
+		return fmt.Sprintf("with the keys and values of the nodes a task does not hold scrambled for the duration of each of its steps the oracles report [%s]; under the same schedule without the probe they report [%s]: a task read a node outside its critical section", ka, kb)
+	}
+	return ""
 }
